@@ -50,6 +50,50 @@ theorem accept_iff (W b : Nat) (hb : b ≤ W) (hW : W ≤ 64) (c h : Nat) (hh : 
     ((h % 2 ^ W) &&& (2 ^ b - 1) = c &&& (2 ^ b - 1)) ↔
       ∃ q, q < 2 ^ (64 - b) ∧ h = c % 2 ^ b + 2 ^ b * q := accept_iff_repr W b hb hW c h hh
 
+/-- **Acceptance characterisation (members and non-members alike).**  Whenever the three cells of
+    a signature are readable and XOR to `v`, `contains_by_sig` answers `true` exactly when `v` is
+    the masked, down-cast mixed hash of the signature.  This ties the decision the code takes to
+    the set counted by `accept_count`: the answer depends on the key only through that hash. -/
+theorem contains_iff (cells : Array Nat) (p : Params) (W mask : Nat) (sig : Sig) (v : Nat)
+    (hv : getBySig cells p sig = .ok v) :
+    containsBySig cells p W mask sig = .ok true ↔ v = filterVal p W mask sig := by
+  unfold containsBySig
+  rw [hv]
+  simp [bind, Out.bind, pure]
+
+/-- ... and `contains_by_sig` never answers anything but the outcome of that comparison -/
+theorem contains_eq (cells : Array Nat) (p : Params) (W mask : Nat) (sig : Sig) (v : Nat)
+    (hv : getBySig cells p sig = .ok v) :
+    containsBySig cells p W mask sig = .ok (v == filterVal p W mask sig) := by
+  unfold containsBySig
+  rw [hv]
+  rfl
+
+/-- a key is accepted iff its 64-bit mixed hash lies in the class `accept_iff` describes: for
+    cells holding `b`-bit values (`v < 2^b`), acceptance is `hash ≡ v (mod 2^b)`; so a non-member
+    whose hash is uniform is accepted with probability `2^(64-b) / 2^64` (by `accept_count`). -/
+theorem contains_iff_hash_class (cells : Array Nat) (p : Params) (W b : Nat) (hb : b ≤ W)
+    (sig : Sig) (v : Nat) (hv : getBySig cells p sig = .ok v) :
+    containsBySig cells p W (filterMask W b) sig = .ok true ↔
+      mix64 (edgeHash p (localSig p sig)) % 2 ^ b = v := by
+  rw [contains_iff cells p W _ sig v hv]
+  unfold filterVal
+  rw [mask_eq W b hb, and_mask_eq_mod, mod_mod_pow _ W b hb]
+  exact eq_comm
+
+/-- false positives are exactly hash collisions modulo `2^b` with the XOR of the cells: a
+    signature whose class differs is rejected (no "accept by default" path) -/
+theorem rejects_outside_class (cells : Array Nat) (p : Params) (W b : Nat) (hb : b ≤ W)
+    (sig : Sig) (v : Nat) (hv : getBySig cells p sig = .ok v)
+    (hne : mix64 (edgeHash p (localSig p sig)) % 2 ^ b ≠ v) :
+    containsBySig cells p W (filterMask W b) sig = .ok false := by
+  rw [contains_eq cells p W _ sig v hv]
+  congr 1
+  unfold filterVal
+  rw [mask_eq W b hb, and_mask_eq_mod, mod_mod_pow _ W b hb]
+  simp only [beq_eq_false_iff_ne, ne_eq]
+  exact fun h => hne h.symm
+
 /-! ### non-vacuity -/
 
 /-- a 3-bit filter on a `u8` backend over 6 cells, one key with signature `(5, 0)` -/
@@ -61,6 +105,10 @@ example : (eqOf exP (5, 0) (filterVal exP 8 (filterMask 8 3) (5, 0))).check exCe
 example : containsBySig exCells exP 8 (filterMask 8 3) (5, 0) = .ok true :=
   no_false_negative exCells exP 8 3 (5, 0) (by decide)
 example : filterMask 8 3 = 7 := by decide
+/-- non-member signatures of the example: `(1, 3)` is rejected, `(9, 3)` is a false positive
+    (its hash class coincides with the XOR of its cells) -/
+example : containsBySig exCells exP 8 (filterMask 8 3) (1, 3) = .ok false := by decide
+example : containsBySig exCells exP 8 (filterMask 8 3) (9, 3) = .ok true := by decide
 example : acceptCount 8 3 5 = 2 ^ 61 := accept_count 8 3 (by omega) (by omega) 5
 
 end Sux.Func
